@@ -66,7 +66,9 @@ def obj_class():
 
         @rpc_method
         def combine(self, x, y):
-            return x + y
+            import numpy
+            with numpy.errstate(all="ignore"):
+                return x + y
 
         @rpc_method
         def describe(self, *args, **kwargs):
